@@ -10,9 +10,14 @@ import tlc
 
 NAMES = ['x.py', 'x.pyc', 'x.pyo', 'y.pyc', 'z.pyo', 'x.pyc.bak', 'pyc', 'X.PYC', '.pyc',
          'y.pycx', 'w.py', 'w.pyc', 'notes.txt', 'xpyc', 'q.pyo', 'q.py', 'tests.py', 'tests.pyc',
-         'gone_tests.pyc']
+         'gone_tests.pyc', 'x.py.orig']
 DIRS = ['', 'pkg', 'pkg/inner', '__pycache__', 'pkg/__pycache__', '.git', 'node_modules', 'my-dir',
-        'CVS', 'skipme', '1bad', 'pkg/tests', '_darcs/deep', 'pkg_extra', 'pkg_extra/more']
+        'CVS', 'skipme', '1bad', 'pkg/tests', '_darcs/deep', 'pkg_extra', 'pkg_extra/more',
+        'fixtures[v1]', 'pkg/fixtures[v1]/data*', 'what?']
+# --ignore_dir takes directory names, not patterns: names of the universe that
+# contain [ ] * ? (given literally), and names that are no directory of the
+# universe but would, read as shell patterns, match pkg, pkg_extra or everything
+IGN_LITERAL = ['fixtures[v1]', 'fixtures[v1]', 'data*', 'what?', 'pk?', '[p]kg', 'pkg_*', '*']
 DIR_AS_PY = 'y.py'       # a *directory* named like the source of y.pyc
 
 
@@ -62,6 +67,9 @@ def gen_case(cid, rng):
             links[lp] = {'paths': sub, 'contents': {q: 'bytes of linked %s\n' % q for q in sub if not q.endswith('.py')}}
     keepsel = rng.choice(['', '', '', '-k', '--usecompiled'])
     ignore = ['skipme'] if rng.random() < 0.5 else []
+    if rng.random() < 0.4:
+        ignore = ignore + rng.sample(IGN_LITERAL, rng.randint(1, 2))
+        rng.shuffle(ignore)
     args = ['--list-tests'] + ([keepsel] if keepsel else [])
     for i in ignore:
         args += ['--ignore_dir', i]
@@ -74,9 +82,10 @@ def run(chk, tier, seed, replay=None):
     chk.rule = ('(1) TLC: DiscoveryMC.tla - OrphansCore <= Removed <= OrphansAll, nothing with a source '
                 'sibling / below __pycache__ / below an --ignore_dir directory is ever removed, keep => '
                 'nothing removed, over every parent-closed subset of a 16-entry universe x root lists. '
-                '(2) real runs: trees over 19 file names (x.py / x.pyc / x.pyo, orphans, look-alikes '
-                'x.pyc.bak, pyc, X.PYC, .pyc, y.pycx, xpyc, a directory named y.py) x 13 directories '
-                '(packages, __pycache__, .git, node_modules, my-dir, 1bad, CVS, _darcs, --ignore_dir) x '
+                '(2) real runs: trees over 20 file names (x.py / x.pyc / x.pyo, orphans, look-alikes '
+                'x.pyc.bak, x.py.orig, pyc, X.PYC, .pyc, y.pycx, xpyc, a directory named y.py) x 18 directories '
+                '(packages, __pycache__, .git, node_modules, my-dir, 1bad, CVS, _darcs, directories named fixtures[v1], data*, what?) x '
+                '--ignore_dir lists (skipme, literal names with [ ] * ? that are / are not directories of the tree) x '
                 'roots {top}, {top, top}, {top, pkg}, {pkg, my-dir}, {pkg, pkg_extra} x {none, -k, --usecompiled} x --path / '
                 '--test-path, 30% with a directory linked in from outside the tree; the file system is snapshotted (paths, hashes) before and after a --list-tests '
                 'run and TLC judges the difference; distinct = distinct (tree, options)')
@@ -107,7 +116,7 @@ def run(chk, tier, seed, replay=None):
         crashed = ''
         if r['rc'] not in (0, 1) or 'Traceback (most recent call last)' in r['stderr']:
             crashed = 'rc=%s %s' % (r['rc'], r['stderr'].strip().splitlines()[-1:] or '')
-        recs.append({'id': c['id'], 'what': 'clean', 'T': T, 'imported': [],
+        recs.append({'id': c['id'], 'what': 'clean', 'T': T, 'imported': [], 'listed': [],
                      'deleted': r['deleted'], 'changed': r['changed'], 'crashed': crashed})
     chk.sample({'paths': sorted(cases[0]['paths']), 'roots': cases[0]['roots'], 'args': cases[0]['args'],
                 'deleted': recs[0]['deleted']})
@@ -137,3 +146,6 @@ def run(chk, tier, seed, replay=None):
                           % (clause, arg, c['roots'], c['args'], rec['deleted'][:6], rec['changed'][:4]),
                           {'case': c, 'record': rec, 'stdout_tail': r['stdout'][-1500:], 'stderr_tail': r['stderr'][-1500:]})
     chk.extra['runs_that_deleted_something'] = ndel
+    chk.extra['runs_with_bytecode_below_a_literally_ignored_glob_name'] = sum(
+        any(i in c['ignore'] and any(('/' + p).find('/' + i + '/') >= 0 and p[-4:] in ('.pyc', '.pyo') for p in c['paths'])
+            for i in ('fixtures[v1]', 'data*', 'what?')) for c in cases)
